@@ -14,7 +14,10 @@ from . import pipeline as P
 ADVERSARIAL = ["1 / 0", "1 % 0", "1 // 0", "1 < 'a'", "'a' < 1", "1 in 2", "[] + ()", "-'a'", "not 1 / 0", "0 ** -1", "9 ** 9 ** 9", "1 << 10 ** 6", "2 ** 2 ** 20", "len(5)", "int('x')", "max()",
                "min([])", "sum('ab')", "sorted([1, 'a'])", "abs('a')", "''.join(1)", "'a'.foo()", "(1).real()", "float('nan') < 1", "(1,) < [1]", "{1} < 2", "None > None", "1 < 2 < 'a'", "0 < 1 / 0 < 2",
                "1 and 1 / 0", "0 or 1 / 0", "print('side effect')", "exit(0)", "input()", "open('/nonexistent')", "__import__('os')", "eval('1')", "5", "None", "...", "[1, 2][5]", "{}['k']", "'abc'[10]",
-               "list(range(10 ** 9))" if False else "range(10 ** 9)", "'a' * 3", "f'{1 / 0}'", "lambda: 1 / 0", "(x for x in 5)", "[x for x in 5]", "{**1}", "[*5]", "1 if 1 / 0 else 2", "~'a'", "1 @ 2"]
+               "list(range(10 ** 9))" if False else "range(10 ** 9)", "'a' * 3", "f'{1 / 0}'", "lambda: 1 / 0", "(x for x in 5)", "[x for x in 5]", "{**1}", "[*5]", "1 if 1 / 0 else 2", "~'a'", "1 @ 2",
+               # symbolic / degenerate iteration spaces of the closed-form rules
+               "(x for x in range(1, n, 3))", "[x * x for x in range(0, n, 2)]", "(x for x in range(1, 10, 0))", "(x for x in range(n, 1, -2))", "[x for x in range(1.5)]", "(x * y for x in range(3) for y in range(x))",
+               "range(1, 10, 0)", "range(0, 10, n)", "(1 / x for x in range(3))", "[x ** n for x in range(1, 4)]"]
 POSITIONS = ["if {e}:\n    print(1)\nelse:\n    print(2)\n", "while {e}:\n    print(1)\n    break\n", "assert {e}\nprint(3)\n", "def g():\n    return 1\nx = {e} and g()\nprint(x)\n",
              "y = [1, 2]\nz = [a for a in y if {e}]\nprint(z)\n", "x = 1 if {e} else 2\nprint(x)\n", "for i in {e}:\n    print(i)\nprint(4)\n", "x = not ({e})\nprint(x)\n",
              "def h():\n    if {e}:\n        return 1\n    return 2\nprint(h())\n", "x = sum({e})\nprint(x)\n", "x = {e} == {e}\nprint(x)\n", "x = [i for i in range({e}) if i > 2]\nprint(x)\n"]
